@@ -200,6 +200,47 @@ fn run_large(thorough: bool, seed: u64, out: &mut Out) {
             str_case(hs, &n, sk[(i / 6) % sk.len()], out);
         }
     }
+    // NEAR MISSES with long patterns (16..=40 bytes): the haystack starts / ends with the pattern except for
+    // 0..=2 changed bytes; pairs of changes sit at positions that agree modulo 8 or 16 and carry the same wrong
+    // letter (a word-wise comparison that folds differences must still see them)
+    let ncases = if thorough { 3000 } else { 300 };
+    for i in 0..ncases {
+        let alpha = [Alpha::Two, Alpha::Four, Alpha::Two, Alpha::Raw256][i % 4];
+        let pl = 16 + rng.below(25) as usize;
+        let pat: Vec<u8> = (0..pl).flat_map(|_| alpha.letter(&mut rng)).take(pl).collect();
+        let mut window = pat.clone();
+        match rng.below(5) {
+            0 => {}
+            1 => {
+                let k = rng.below(pl as u64) as usize;
+                window[k] = alpha.letter(&mut rng)[0];
+            }
+            _ => {
+                let k = rng.below(pl as u64) as usize;
+                let step = [8usize, 16][rng.below(2) as usize];
+                let x = alpha.letter(&mut rng)[0];
+                window[k] = x;
+                if k + step < pl {
+                    window[k + step] = x;
+                } else if k >= step {
+                    window[k - step] = x;
+                }
+            }
+        }
+        let filler: Vec<u8> = (0..rng.below(6)).flat_map(|_| alpha.letter(&mut rng)).collect();
+        let mut h_suffix = filler.clone();
+        h_suffix.extend_from_slice(&window);
+        let mut h_prefix = window.clone();
+        h_prefix.extend_from_slice(&filler);
+        for h in [h_suffix, h_prefix, window.clone()] {
+            let kinds = kinds_for_big(&pat);
+            bytes_case(&h, &pat, kinds[i % kinds.len()], out);
+            if let (Ok(hs), true) = (std::str::from_utf8(&h), std::str::from_utf8(&pat).is_ok()) {
+                let sk = str_kinds(&pat);
+                str_case(hs, &pat, sk[i % sk.len()], out);
+            }
+        }
+    }
     // whitespace runs of 10..=40 bytes at both ends
     let wcases = if thorough { 4000 } else { 400 };
     for _ in 0..wcases {
